@@ -379,6 +379,9 @@ def features(src, tree, sm):
             if any(isinstance(v, ast.Constant) and isinstance(v.value, str) and ("{" in v.value or "}" in v.value)
                    for v in n.values):
                 site("fstring-escaped-brace", sp)
+            tq = _triple_quote_tail(src[sp[0]:sp[1]])
+            if tq:
+                site("fstring-triple-quote-tail", sp)
             for v in n.values:
                 if isinstance(v, ast.FormattedValue) and v.format_spec is not None and any(
                         isinstance(x, ast.FormattedValue) for x in v.format_spec.values):
@@ -409,8 +412,26 @@ def features(src, tree, sm):
 # attribution of failures that no node-local rule explains: first cause (in this order) with a site there
 CAUSES = ["string-after-f-word", "non-nfkc-identifier",
           "class-keywords-type-params", "signature-syntax", "match-sequence-parens",
-          "fstring-concat", "fstring-escaped-brace", "fstring-nested-spec",
+          "fstring-triple-quote-tail", "fstring-concat", "fstring-escaped-brace", "fstring-nested-spec",
           "tuple-trailing-comma"]
+
+
+RE_FSTRING_OPEN = re.compile(r"[rRfF]{1,2}(\'\'\'|\"\"\"|\'|\")")
+
+
+def _triple_quote_tail(text):
+    """exact shape of finding C08-fstring-triple-quote-tail: one f-string literal delimited by a single quote
+    character whose text contains a triple quote, and fewer than two characters between the last '}' and the
+    closing quote (end_quote_char then returns three characters that overlap the last replacement field)"""
+    m = RE_FSTRING_OPEN.match(text)
+    if not m or len(m.group(1)) != 1 or not text.endswith(m.group(1)):
+        return False
+    body = text[m.end():-1]
+    if '"""' not in body and "'''" not in body:
+        return False
+    if m.group(1) in body.replace("\\" + m.group(1), ""):
+        return False          # several literals (implicit concatenation): another finding
+    return "}" in body and len(body) - body.rfind("}") - 1 < 2
 
 
 def _touches(a, b):
@@ -747,6 +768,12 @@ FINDINGS = {
         "f-string with a replacement field inside a format spec: the inner FormattedValue is never annotated and "
         "the outer one ends at the inner '}'",
         'x = f"{a:{w}}"\n'),
+    "fstring-triple-quote-tail": (
+        "C08-fstring-triple-quote-tail",
+        "f-string delimited by a single quote character whose text contains a triple quote and ends less than two "
+        "characters after its last replacement field: _JoinedStr.end_quote_char takes the longest quote found anywhere "
+        "in the literal and returns its last three characters, which overlap the field; ValueError (substring not found)",
+        'x = f\'"""{a}\'\n'),
     "fstring-concat": (
         "C08-fstring-concat",
         "f-string implicitly concatenated with other literals: only the f-string part is consumed (region too "
